@@ -44,6 +44,39 @@ def run(chk):
             chk.broken("correspondence harness TestVerifC07 no longer runs against /repo (%s)" % kind, o)
     sess = [r for r in rows if r["kind"] == "session"]
     inj = [r for r in rows if r["kind"] == "inject"]
+    psk0 = [r for r in rows if r["kind"] == "psk0"]
+    resumed = [r for r in rows if r["kind"] == "resume"]
+
+    # ---- empty pre-shared key: must be refused; if accepted the exporter is computable from the hellos
+    for r in psk0:
+        if r["done"]:
+            found = True
+            chk.finding("internal/flight/flight12 flight4Parse / flight3 handleServerKeyExchange (PSK callback result)",
+                        {"monitor": "handshake completed with an empty pre-shared key", "mode": r["mode"].split("+")[0]},
+                        "the PSK callback returned an EMPTY key (%s) and the handshake completed: pre_master_secret is 00000000, "
+                        "a peer knowing no secret is accepted%s" % (
+                            r["mode"], "; the exported keying material equals %s" % r["exp_public"] if r.get("exp_public") else ""),
+                        {"mode": r["mode"], "exporter_client": r.get("exp_c"), "exporter_server": r.get("exp_s"),
+                         "formula": r.get("exp_public"),
+                         "how": "TLS_PSK_WITH_AES_128_GCM_SHA256, PSK callbacks return []byte{} as said in `mode` (ems = extended "
+                                "master secret on), handshake over a perfect network; label 'EXPERIMENTAL verif c07', 32 bytes"})
+            break
+
+    # ---- resumed states: application data never at epoch 0 / in clear
+    for r in resumed:
+        if r.get("epoch0") or r.get("leaks"):
+            found = True
+            chk.finding("state.go generateInternalState / resume.go (state captured before the keys were switched on)",
+                        {"monitor": "resumed connection emits application data unprotected", "captured": r["mode"]},
+                        "a State captured at %s time (%s side) was accepted by Resume and the first Write emitted %d "
+                        "application_data record(s) at epoch 0%s [variant %s]" % (
+                            "VerifyConnection" if r["mode"] == "verify" else "established", r["side"], r.get("epoch0", 0),
+                            " with the payload in clear" if r.get("leaks") else "", r["variant"]),
+                        {"variant": r["variant"], "captured": r["mode"], "side": r["side"], "labels": r["labels"],
+                         "leak": (r.get("leaks") or [None])[0],
+                         "how": "handshake of `variant` with a VerifyConnection callback that serialises the State it is given "
+                                "(MarshalBinary); UnmarshalBinary + Resume on a fresh socket; Write one payload; look at the wire"})
+            break
 
     # ---- monitors on the implementation trace
     seen_leak = set()
@@ -106,6 +139,23 @@ def run(chk):
                         "target %s]" % (r["marker_read"], r["variant"], r["stage"], r["target"]),
                         {"variant": r["variant"], "stage": r["stage"], "target": r["target"], "hex": r["marker_hex"],
                          "how": "deliver `hex` to `target` before handshake datagram #stage; complete the handshake; Read on `target`"})
+            break
+    for r in inj:
+        eff = (r.get("effect") or "").strip()
+        if eff or (r["done"] and not r.get("after_ok")):
+            found = True
+            chk.finding("conn.go handleApplicationDataRecord (epoch 0)",
+                        {"monitor": "unprotected application data record has an effect", "v13": r["v13"],
+                         "effect": eff or "no service afterwards"},
+                        "an unprotected (epoch 0) application_data record must be refused silently: here it %s [variant %s, %s, "
+                        "target %s]" % (
+                            {"emit": "drew an alert", "emit hs-abort": "drew an alert and ended the handshake in progress",
+                             "hs-abort": "ended the handshake in progress"}.get(eff, "stopped later genuine payloads from "
+                                                                                     "being delivered"),
+                            r["variant"], "established" if r["stage"] < 0 else "before handshake datagram #%d" % r["stage"],
+                            r["target"]),
+                        {"variant": r["variant"], "stage": r["stage"], "target": r["target"], "hex": r["marker_hex"],
+                         "how": "deliver `hex` to `target` before handshake datagram #stage (-1: after the handshake)"})
             break
     for r in inj:
         if r["marker_read"]:
@@ -186,7 +236,15 @@ def run(chk):
                                                  for r in sess[:2]])
     chk.count("epoch0-injection", len(inj), [(r["variant"], r["stage"], r["target"]) for r in inj],
               samples=[{k: r[k] for k in ("variant", "stage", "target", "marker_hex", "marker_read", "effect")} for r in inj[:2]])
-    chk.cov["traces_validated_against_impl"] = len(sess) + len(inj)
+    chk.count("empty-psk", len(psk0), [(r["mode"], r["done"]) for r in psk0],
+              samples=[{k: r.get(k) for k in ("mode", "done", "err")} for r in psk0[:2]])
+    chk.count("resumed-states", len(resumed), [(r["variant"], r["mode"], r["side"], bool(r.get("refused"))) for r in resumed],
+              samples=[{k: r.get(k) for k in ("variant", "mode", "side", "refused", "labels")} for r in resumed[:3]])
+    chk.leg_info("resumed-states", refused=sum(1 for r in resumed if r.get("refused")),
+                 resumed=sum(1 for r in resumed if not r.get("refused")),
+                 refusals=sorted({(r["mode"], (r.get("refused") or "")[:60]) for r in resumed if r.get("refused")}))
+    chk.leg_info("empty-psk", completed=sum(1 for r in psk0 if r["done"]), results=sorted({(r["mode"], r.get("err", "")[:90]) for r in psk0}))
+    chk.cov["traces_validated_against_impl"] = len(sess) + len(inj) + len(psk0) + len(resumed)
     chk.leg_info("wire-scan", sessions=len(sess), completed=sum(1 for r in sess if r["done"]),
                  not_completed=[(r["variant"], r["drop"]) for r in sess if not r["done"]],
                  datagrams=sum(r["datagrams"] for r in sess), records=n_rec,
